@@ -36,6 +36,12 @@ def source_of(spec):
     L += ['', '    def %s(self):' % spec['method']]
     B = []
     shape = spec.get('shape', 0)
+    # docstrings of the transpiled method become comments of the emitted text: none / one line / several lines (seeded/C03q)
+    doc = spec.get('doc', (shape + len(spec['ports']) + len(spec.get('locals', []))) % 3)
+    if doc == 1:
+        L.append('        """one step of the block"""')
+    elif doc == 2:
+        L += ['        """one step of the block:', '        the inputs are sampled first, then the state is updated', '        and the outputs follow.', '        """']
     e0 = 'self.%s.get()' % ins[0]
     e1 = 'self.%s.get()' % ins[-1]
     st = spec.get('state', [])
